@@ -1,6 +1,9 @@
 package pipeline
 
 import (
+	"cmp"
+	"slices"
+
 	"github.com/buildkite/go-pipeline/ordered"
 	"github.com/buildkite/interpolate"
 )
@@ -125,7 +128,16 @@ func interpolateMapValues[K comparable, V any, M ~map[K]V](tf stringTransformer,
 
 // interpolateMap applies interpolateAny over both keys and values of any type
 // of map. The map is altered in-place.
-func interpolateMap[K comparable, V any, M ~map[K]V](tf stringTransformer, m M) error {
+func interpolateMap[K cmp.Ordered, V any, M ~map[K]V](tf stringTransformer, m M) error {
+	// The map must not be changed while ranging over it: Go may or may not
+	// visit entries added during iteration, so an entry stored under its
+	// interpolated key could be interpolated a second time. Interpolate
+	// everything first, then rewrite the map.
+	type entry struct {
+		oldKey, newKey K
+		value          V
+	}
+	entries := make([]entry, 0, len(m))
 	for k, v := range m {
 		// We interpolate both keys and values.
 		intk, err := interpolateAny(tf, k)
@@ -138,12 +150,22 @@ func interpolateMap[K comparable, V any, M ~map[K]V](tf stringTransformer, m M) 
 		if err != nil {
 			return err
 		}
+		entries = append(entries, entry{oldKey: k, newKey: intk, value: intv})
+	}
 
-		// If the key changed due to interpolation, delete the old key.
-		if k != intk {
-			delete(m, k)
+	// Apply the changes in a fixed order (by original key), so that the result
+	// does not depend on map iteration order if two keys interpolate to the
+	// same key.
+	slices.SortFunc(entries, func(a, b entry) int { return cmp.Compare(a.oldKey, b.oldKey) })
+
+	// If a key changed due to interpolation, delete the old key.
+	for _, e := range entries {
+		if e.oldKey != e.newKey {
+			delete(m, e.oldKey)
 		}
-		m[intk] = intv
+	}
+	for _, e := range entries {
+		m[e.newKey] = e.value
 	}
 	return nil
 }
